@@ -82,6 +82,7 @@ def run(tier="quick"):
                             E.FAILED if mism else E.DISCHARGED, "; ".join(mism[:4]), time.time() - t2, "abra_core/src/parse.rs", "",
                             "%d float literals; printed value parsed back with Python's correctly rounded float()" % len(FLOATS),
                             "every float literal evaluates to the nearest binary64 of its decimal spelling (assumes f64::to_string round-trips)"))
+    obs.append(multiline_obligation())
     want = os.environ.get("ABRA_VERIF_PROP")
     if want:
         obs = [o for o in obs if want in o.props]
@@ -89,6 +90,61 @@ def run(tier="quick"):
                              "U18: f64::to_string / Python float() are correctly rounded and round-trip"],
                 trusted_base=["the real CLI built from /repo", "Python int/float"], checker_cmds=["target/debug/abra main.abra (programs generated by units/u18_literals)"], notes={})
     return obs, info
+
+
+def dedent_expected(raw):
+    """Indentation stripping of a triple-quoted literal, written from the property statement: the text between the delimiters is
+    split into lines; a whitespace-only remainder of the opening line and a whitespace-only line before the closing delimiter are
+    not part of the text; the common indentation of the non-blank lines (text on the opening line kept verbatim and not counted)
+    is removed from every line; blank lines stay as empty lines."""
+    lines = raw.split("\n")
+    if len(lines) > 1 and lines[-1].strip() == "":
+        lines = lines[:-1]
+    first_kept = lines and lines[0].strip() != ""
+    if not first_kept:
+        lines = lines[1:]
+    body = lines[1:] if first_kept else lines
+    ind = [len(l) - len(l.lstrip(" ")) for l in body if l.strip() != ""]
+    k = min(ind) if ind else 0
+    out = ([lines[0]] if first_kept else []) + [l[k:] if l.strip() != "" else "" for l in body]
+    return "\n".join(out)
+
+
+def multiline_obligation():
+    import itertools
+    t0 = time.time()
+    atoms = ["", "x", "  x", "    yz"]
+    cases = []
+    for first in ("", "p"):
+        for n in (1, 2, 3):
+            for body in itertools.product(atoms, repeat=n):
+                if first == "" and body[0] == "":
+                    continue   # leading blank lines: not stated by the property, left out of the domain
+                for closing in ("\n", "\n    ", ""):
+                    if closing == "" and body[-1] == "":
+                        continue
+                    raw = first + "\n" + "\n".join(body) + closing
+                    cases.append(raw)
+    prog = "".join('println("<<" .. """%s""" .. ">>")\n' % raw for raw in cases)
+    out, err, rc = abra_cli.run_program(prog, timeout=300)
+    mism = []
+    if rc != 0:
+        mism.append("the batch of %d literals is rejected: %s" % (len(cases), (out + err).strip().split("\n")[0][:200]))
+    else:
+        got = [g.split(">>")[0] for g in out.split("<<")[1:]]
+        for i, raw in enumerate(cases):
+            w = dedent_expected(raw)
+            g = got[i] if i < len(got) else "<missing>"
+            if g != w:
+                mism.append("literal \"\"\"%s\"\"\" evaluates to %r, expected %r" % (raw.replace("\n", "\\n"), g, w))
+                if len(mism) >= 6:
+                    break
+    return E.Obligation("C30.cli.multiline_string.dedent", ["C30"], UNIT, "handle_multiline_string via the real CLI", "bounded: run on the real CLI",
+                        E.FAILED if mism else E.DISCHARGED, "; ".join(mism[:4]), time.time() - t0, "abra_core/src/parse/lexer.rs", "",
+                        "%d triple-quoted literals: text or nothing on the opening line, 1-3 body lines from {blank, `x`, 2-space `x`, 4-space `yz`}, closing "
+                        "delimiter after the text / on its own line with 0 or 4 spaces; black-box stand-in, not a proof" % len(cases),
+                        "a triple-quoted literal evaluates to its lines with the common indentation of the non-blank lines removed (blank lines kept, "
+                        "opening-line text verbatim, whitespace-only first/last line dropped)")
 
 
 def replay(ob):
